@@ -331,6 +331,21 @@ pub fn run(run: &mut Run) {
                 }
             }
         }
+        // multi-line triple-quoted literals whose rejected escape stands on a later line (the
+        // reported position must stay inside the line it names)
+        for (open, close) in [("\"\"\"", "\"\"\""), ("\'\'\'", "\'\'\'"), ("b\"\"\"", "\"\"\""), ("b\'\'\'", "\'\'\'")] {
+            for bad in ["\\ud800", "\\U00110000", "\\udfff", "\\u0041", "\\U00000041", "\\400", "\\xzz", "\\q"] {
+                for before in ["\n", "a\n", "aaaaaaaaaaaaaaaaaaaaaaaaaaaaaaaaaaaaaaaa\n", "\n\n", "a\nb\n", "\r\n", "\u{e4}\n\u{1f600}", "\t\n\t"] {
+                    for after in ["", "\n", "\nzz"] {
+                        for (pre, post) in [("", ""), ("1 + ", ""), ("[\n", "\n]"), ("f(", ")")] {
+                            if run.take() {
+                                judge(run, "literals", &format!("{}{}{}{}{}{}{}", pre, open, before, bad, after, close, post));
+                            }
+                        }
+                    }
+                }
+            }
+        }
         // integer literals at every power-of-two boundary, decimal and hexadecimal, signed and
         // unsigned spellings, alone and embedded
         for k in [7u32, 8, 15, 16, 31, 32, 53, 62, 63, 64, 65, 126, 127] {
